@@ -27,6 +27,7 @@ type c11Val struct {
 	Extra  map[string]string `json:"extra,omitempty"`
 	HasMap bool              `json:"has_map"`                   // distinguishes nil from empty
 	Big    int               `json:"big_map_entries,omitempty"` // a generated map of this many entries (keys k<i>, values v<i>)
+	Acc    bool              `json:"built_and_read_through_accessors,omitempty"` // New*() + InitDefault + Set*; every Get*/IsSet*/String called before encoding
 }
 
 type c11Read struct {
@@ -70,6 +71,11 @@ func (v c11Val) extra() map[string]string {
 }
 
 func c11Codec(v c11Val) thrift.FastCodec {
+	if v.Acc && !v.Nil {
+		if m := c11ViaAccessors(v); m != nil {
+			return m
+		}
+	}
 	switch v.Kind {
 	case "base":
 		if v.Nil {
@@ -91,6 +97,56 @@ func c11Codec(v c11Val) thrift.FastCodec {
 		return thrift.NewProtocolExceptionWithErr(errors.New(v.S[0]))
 	}
 	return thrift.NewApplicationException(v.I, v.S[0])
+}
+
+// c11ViaAccessors builds the value through the constructor, InitDefault and the setters (the optional map is set only
+// when present) and then calls every getter: getters are reads, so what is encoded afterwards must still be exactly the
+// value that was set (in particular an absent optional map stays absent).  A getter returning something else than what
+// was set panics with a description (reported as a violation by the caller's panic guard).
+func c11ViaAccessors(v c11Val) thrift.FastCodec {
+	sameMap := func(got, want map[string]string) bool {
+		if len(got) != len(want) {
+			return false
+		}
+		for k, x := range want {
+			if y, ok := got[k]; !ok || y != x {
+				return false
+			}
+		}
+		return true
+	}
+	switch v.Kind {
+	case "base":
+		p := base.NewBase()
+		p.InitDefault()
+		p.SetLogID(v.S[0])
+		p.SetCaller(v.S[1])
+		p.SetAddr(v.S[2])
+		if v.HasMap {
+			p.SetExtra(v.extra())
+		}
+		_ = p.String()
+		if p.GetLogID() != v.S[0] || p.GetCaller() != v.S[1] || p.GetAddr() != v.S[2] || p.IsSetExtra() != v.HasMap || !sameMap(p.GetExtra(), v.extra()) {
+			panic(fmt.Sprintf("accessors of Base do not return what was set: %q %q %q set=%v %d entries", p.GetLogID(), p.GetCaller(), p.GetAddr(), p.IsSetExtra(), len(p.GetExtra())))
+		}
+		_ = p.String()
+		return p
+	case "baseresp":
+		p := base.NewBaseResp()
+		p.InitDefault()
+		p.SetStatusMessage(v.S[0])
+		p.SetStatusCode(v.I)
+		if v.HasMap {
+			p.SetExtra(v.extra())
+		}
+		_ = p.String()
+		if p.GetStatusMessage() != v.S[0] || p.GetStatusCode() != v.I || p.IsSetExtra() != v.HasMap || !sameMap(p.GetExtra(), v.extra()) {
+			panic(fmt.Sprintf("accessors of BaseResp do not return what was set: %q %d set=%v %d entries", p.GetStatusMessage(), p.GetStatusCode(), p.IsSetExtra(), len(p.GetExtra())))
+		}
+		_ = p.String()
+		return p
+	}
+	return nil
 }
 
 // c11WantFields: the fields the encoding must hold, by id.
@@ -263,6 +319,10 @@ func c11ReadOneSpan(c *mc.Ctx, k c11Read, in []byte) {
 			n, err = x.FastRead(in)
 			got.S = [3]string{x.LogID, x.Caller, x.Addr}
 			got.HasMap, got.Extra = x.Extra != nil, x.Extra
+			if x.GetLogID() != x.LogID || x.GetCaller() != x.Caller || x.GetAddr() != x.Addr || x.IsSetExtra() != got.HasMap || len(x.GetExtra()) != len(x.Extra) || (x.Extra != nil) != got.HasMap {
+				bad("getters", "after FastRead the getters disagree with the decoded fields (or calling them changed the value)")
+				return
+			}
 		case "baseresp":
 			var x base.BaseResp
 			if k.Reuse {
@@ -271,6 +331,10 @@ func c11ReadOneSpan(c *mc.Ctx, k c11Read, in []byte) {
 			n, err = x.FastRead(in)
 			got.S[0], got.I = x.StatusMessage, x.StatusCode
 			got.HasMap, got.Extra = x.Extra != nil, x.Extra
+			if x.GetStatusMessage() != x.StatusMessage || x.GetStatusCode() != x.StatusCode || x.IsSetExtra() != got.HasMap || len(x.GetExtra()) != len(x.Extra) || (x.Extra != nil) != got.HasMap {
+				bad("getters", "after FastRead the getters disagree with the decoded fields (or calling them changed the value)")
+				return
+			}
 		default:
 			x := thrift.NewApplicationException(0, "")
 			n, err = x.FastRead(in)
@@ -373,6 +437,11 @@ func c11Run(c *mc.Ctx) {
 							v := c11Val{Kind: kind, S: [3]string{s0, s1, s2}, I: i, Extra: e.Extra, HasMap: e.HasMap}
 							c.Distinct("w", kind, s0, s1, s2, i, fmt.Sprint(e))
 							c11Write(c, v)
+							if kind == "base" || kind == "baseresp" {
+								v.Acc = true
+								c.Distinct("wacc", kind, s0, s1, s2, i, fmt.Sprint(e))
+								c11Write(c, v)
+							}
 						}
 					}
 				}
@@ -394,7 +463,7 @@ func c11Run(c *mc.Ctx) {
 			c11ReadOne(c, c11Read{Kind: kind, StructN: len(enc), Want: v, Desc: fmt.Sprintf("map of %d entries", n)}, append(enc, 0x7e))
 		}
 	}
-	c.Done("write side: Base/BaseResp/ApplicationException over 4 string values per field x 6 i32 x nil/empty/1/2/empty-key maps, maps of 255..70001 entries (written, parsed by the reference, read back), nil receiver; Error() is read-only; BLength == FastWrite == FastWriteNocopy(nil) == FastMarshal; bytes parsed order-insensitively")
+	c.Done("write side: Base/BaseResp/ApplicationException over 4 string values per field x 6 i32 x nil/empty/1/2/empty-key maps, maps of 255..70001 entries (written, parsed by the reference, read back), nil receiver; every value also built through New*/InitDefault/Set* and read through every Get*/IsSet*/String before encoding; Error() is read-only; BLength == FastWrite == FastWriteNocopy(nil) == FastMarshal; bytes parsed order-insensitively")
 	// ---- read side ----
 	var unknowns []ref.Value
 	_ = th
